@@ -6,7 +6,7 @@ import re
 from framework import REPO, ROOT, LEAN
 
 TIE = ["Nsq.Tie.LookupSync"]
-PROPS = ["Nsq.Props.C16", "Nsq.Props.C16Ticks", "Nsq.Props.C16More"]
+PROPS = ["Nsq.Props.C16", "Nsq.Props.C16Ticks", "Nsq.Props.C16More", "Nsq.Props.C16Drain"]
 KEY_F3 = "negative-length-panic"
 KEY_STALE = "deleted-object-still-registered"
 KEY_NAMES = "precreate-unvalidated-channel-name"
